@@ -101,6 +101,7 @@ pub(crate) struct Model {
     pub(crate) unmodelled: BTreeSet<&'static str>,
     /// per block: (tx id, action index, packet sequence, predicted success) of received packets
     pub(crate) recv_predictions: Vec<([u8; 32], u64, u64, bool)>,
+    pub(crate) withdrawals_honoured: u64,
     /// ibc-prefixed id -> trace-prefixed denomination known to the chain
     pub(crate) known_traces: BTreeMap<AssetId, String>,
 }
@@ -339,6 +340,7 @@ impl Model {
         event_id: &str,
         out: &mut Vec<Finding>,
     ) {
+        self.withdrawals_honoured += 1;
         if !self.used_withdrawals.insert((*bridge, event_id.to_string())) {
             out.push(finding(
                 "C04",
@@ -721,7 +723,11 @@ impl Model {
                                 bridge_address: a.to,
                                 rollup_id: astria_core::primitive::v1::RollupId::new(dst.rollup),
                                 amount: a.amount,
-                                asset: Denom::from(super::world::ibc_prefixed(&asset)),
+                                asset: self
+                                    .known_traces
+                                    .get(&asset)
+                                    .and_then(|t| t.parse::<Denom>().ok())
+                                    .unwrap_or_else(|| Denom::from(super::world::ibc_prefixed(&asset))),
                                 destination_chain_address: a.destination_chain_address.clone(),
                                 source_transaction_id:
                                     astria_core::primitive::v1::TransactionId::new(view.id),
